@@ -206,7 +206,7 @@ def run(chk):
 
     def go_ns():
         from ..extern import make_world, term
-        w2 = make_world(chk.repo, overrides={(MOD, 'make_cartesian_product'): (lambda a, b: term('cartesian_product', a, b))})
+        w2 = make_world(chk.repo, overrides={(MOD, 'make_cartesian_product'): (lambda b1, b2: term('cartesian_product', b1, b2))})
         G2 = GenEnv(chk.repo, w2)
         gen = G2.nonstatio(2)
         new, batch = freeze(gen).get_batch()
